@@ -190,7 +190,9 @@ namespace awkward {
 
   const BuilderPtr
   Complex128Builder::endrecord() {
-    return shared_from_this();
+    throw std::invalid_argument(
+      std::string("called 'end_record' without 'begin_record' at the same level before it")
+      + FILENAME(__LINE__));
   }
 
   const BuilderPtr
